@@ -21,9 +21,7 @@ Spec == Init /\ [][Next]_<<s, buf, cfgb>>
 
 \* remaining capacity must be abstracted for cap = Inf, or the view is unbounded
 CapLeft(x) == IF x.cap >= Inf THEN 9 ELSE x.cap - Len(x.hdrs)
-Abs == <<s.kind, s.ph, s.k, s.M, s.hc, CapLeft(s), Len(s.hdrs) = 0, s.err, s.st, s.q, s.obs,
-         s.method = NoSpan, s.path = NoSpan, s.version, s.hasreason, s.reason = NoSpan,
-         cfgb>>
+Abs == <<s.kind, s.ph, s.k, CapLeft(s), Len(s.hdrs) = 0, s.err, s.st, s.q, s.obs, cfgb>>
 Emit == PrintT(ToJson(<<KindId(s.kind), cfgb, s.cap, buf, PhId(s.ph)>>))
 
 \* design-level properties evaluated on every abstract state
